@@ -46,19 +46,26 @@ static void script(void) {
   sin6.sin6_family = AF_INET6; sin6.sin6_port = p_htons(8);
   CTOR(5, p_socket_address_new_from_native(&sin6, sizeof sin6), P_SOCKET_FAMILY_INET6, 8);
 
-  for (int i = 0; i < 2; i++) {
-    f0 = vm_failed; live0 = vm_live;
-    pchar *s = p_socket_address_get_address(a[i]);
-    if (a[i] == NULL) VASSERT(s == NULL, "NULL address: NULL text");
-    else if (C18_FAILED_SINCE(f0)) { VASSERT(s == NULL, "p_socket_address_get_address returns NULL when the text cannot be allocated"); VASSERT(vm_live == live0, "nothing allocated"); }
-    else VASSERT(s != NULL && s[0] == (i == 0 ? '4' : '6') && s[3] == 0, "text delivered");
-    p_free(s);
-    all_unchanged();
-  }
+  int retried_ok = 0;
+  for (int i = 0; i < 2; i++)
+    for (int attempt = 0; attempt < 2; attempt++) {      /* a failed read is retried once: text as without the failure */
+      f0 = vm_failed; live0 = vm_live;
+      pchar *s = p_socket_address_get_address(a[i]);
+      int failed = C18_FAILED_SINCE(f0);
+      if (a[i] == NULL) VASSERT(s == NULL, "NULL address: NULL text");
+      else if (failed) { VASSERT(s == NULL, "p_socket_address_get_address returns NULL when the text cannot be allocated"); VASSERT(vm_live == live0, "nothing allocated"); }
+      else { VASSERT(s != NULL && s[0] == (i == 0 ? '4' : '6') && s[3] == 0, "text delivered (also when an earlier attempt failed)"); if (attempt == 1) retried_ok = 1; }
+      p_free(s);
+      all_unchanged();
+      if (!failed) break;
+    }
   for (int i = 0; i < NA; i++) p_socket_address_free(a[i]);
   VASSERT(ns_ai_live == 0, "no getaddrinfo result outstanding");
   c18_end(11);
   if (ns_ai_total == 1) VWITNESS("IPv6 text went through getaddrinfo/freeaddrinfo");
+#ifndef NOFAIL
+  if (retried_ok) VWITNESS("get_address failed once and delivered the text when retried");
+#endif
 #ifdef NS_SYM_FAIL
   if (ns_faults == 1) VWITNESS("resolver failure injected");
 #endif
